@@ -330,6 +330,46 @@ def run_large_case(n, layout):
     return "imported-faithfully", None
 
 
+def run_long_dim_case(layout):
+    """a dimension with more than 32767 ITEMS (40000 x 2): export, rows rotated, import"""
+    from flodym import Dimension, DimensionSet, FlodymArray
+
+    case = dict(kind="long-dim", layout=layout)
+    n = 40000
+    ds = DimensionSet(dim_list=[Dimension(name="Product", letter="p", items=[f"p{i}" for i in range(n)]), Dimension(name="Region", letter="r", items=["a", "b"])])
+    v = np.arange(float(2 * n)).reshape(n, 2) * 0.5 + 1.0
+    a = FlodymArray(dims=ds, values=v)
+    df = a.to_df(index=layout == "index") if layout != "wide" else a.to_df(dim_to_columns="Region")
+    df = df.iloc[list(range(5, len(df))) + list(range(5))]
+    st, back = attempt(lambda: FlodymArray.from_df(dims=ds, df=df))
+    if st == "raised":
+        return "fail", dict(case=case, tags=dict(header="names", kind="large-refused"), what=f"array over a dimension of {n} items, layout {layout}: from_df raised {back}")
+    if not np.array_equal(back.values, v):
+        bad = np.argwhere(back.values != v)
+        return "fail", dict(case=case, tags=dict(header="names", kind="large-wrong"), what=f"array over a dimension of {n} items, layout {layout}: {len(bad)} entries imported under wrong labels, first {tuple(int(i) for i in bad[0])}: {back.values[tuple(bad[0])]} instead of {v[tuple(bad[0])]}")
+    return "imported-faithfully", None
+
+
+def run_value_items_case(header, index, wide):
+    """the VALUES of the array are exactly the items of one of its (named) dimensions - they are values all the same"""
+    from flodym import Dimension, DimensionSet, FlodymArray
+
+    case = dict(kind="value-items", header=header, index=index, wide=wide)
+    ds = DimensionSet(dim_list=[Dimension(name="Time", letter="t", items=[1, 2, 3], dtype=int), Dimension(name="Region", letter="r", items=["a", "b"])])
+    v = np.array([[1.0, 2.0], [2.0, 3.0], [3.0, 1.0]])
+    a = FlodymArray(dims=ds, values=v)
+    df = a.to_df(index=index, dim_to_columns="Region" if wide else None)
+    if header == "letters":
+        df = df.rename(columns={"Time": "t", "Region": "r"}) if not index else df.rename_axis(index={"Time": "t", "Region": "r"})
+    st, back = attempt(lambda: FlodymArray.from_df(dims=ds, df=df))
+    what = f"array over Time [1, 2, 3] x Region whose values are 1, 2, 3 (header {header}, index {index}, wide {wide})"
+    if st == "raised":
+        return "fail", dict(case=case, tags=dict(header=header, kind="value-items-refused"), what=f"{what}: from_df refused the frame produced by to_df: {back}")
+    if not np.array_equal(back.values, v):
+        return "fail", dict(case=case, tags=dict(header=header, kind="value-items-wrong"), what=f"{what}: imported values differ")
+    return "imported-faithfully", None
+
+
 def todf_modes(keys):
     modes = [("long", True, None), ("long", False, None), ("sparse", True, None), ("sparse", False, None)]
     if len(keys) >= 2:
@@ -347,8 +387,11 @@ def run_unit(u):
     keys, tier = u["keys"], u["tier"]
     if u["kind"] == "large":
         res = dict(evals=0, nontrivial=0, outcomes={}, fails=[], samples=[])
-        for layout in ("columns", "index", "wide"):
-            oc, f = run_large_case(182 if tier == "quick" else 260, layout)
+        jobs = [lambda layout=layout: run_large_case(182 if tier == "quick" else 260, layout) for layout in ("columns", "index", "wide")]
+        jobs += [lambda layout=layout: run_long_dim_case(layout) for layout in ("columns", "index", "wide")]
+        jobs += [lambda h=h, i=i, w=w: run_value_items_case(h, i, w) for h in ("names", "letters") for i in (False, True) for w in (False, True)]
+        for job in jobs:
+            oc, f = job()
             res["evals"] += 1
             res["nontrivial"] += 1
             res["outcomes"][oc] = res["outcomes"].get(oc, 0) + 1
@@ -404,6 +447,10 @@ def replay(case):
         oc, f = run_case(case["keys"], case["layout"])
     elif case["kind"] == "large":
         oc, f = run_large_case(case["n"], case["layout"])
+    elif case["kind"] == "long-dim":
+        oc, f = run_long_dim_case(case["layout"])
+    elif case["kind"] == "value-items":
+        oc, f = run_value_items_case(case["header"], case["index"], case["wide"])
     elif case["kind"] == "extra":
         oc, f = run_extra_case(case["keys"], case["header"], case["i"], case["d"], case["allow_missing"], case["rowindex"])
     elif case["kind"] == "dup":
